@@ -180,16 +180,62 @@ def short_lit(v, fd, rnd):
 
 
 def render_mod(mod):
-    out = ['module %s { prefix "t"; namespace "urn:%s";' % (mod["name"], mod["name"])]
-    for n in mod["nodes"]:
-        kw = "range" if not mod["length"] else "length"
+    """nodes: typedef / leaf with one (parent, text) link, or with "union": [names of member nodes]; a node may sit in a
+    scope (mod["scopes"][n["scope"]]: container, list, grouping (used once), rpc input / output) and have a YANG name
+    ("yname") that differs from its unique node name: same-named typedefs in sibling scopes"""
+    byname = {n["name"]: n for n in mod["nodes"]}
+    kw = "range" if not mod["length"] else "length"
+
+    def yname(name):
+        return byname[name].get("yname", name) if name in byname else name
+
+    def type_stmt(n):
         body = ""
         if n["parent"] == "decimal64":
             body += " fraction-digits %d;" % mod["fd"]
         if n["text"] is not None:
             body += ' %s "%s";' % (kw, n["text"])
-        ty = "type %s {%s }" % (n["parent"], body) if body else "type %s;" % n["parent"]
-        out.append(" %s %s { %s }" % ("leaf" if n["leaf"] else "typedef", n["name"], ty))
+        return "type %s {%s }" % (yname(n["parent"]), body) if body else "type %s;" % yname(n["parent"])
+
+    def stmt(n):
+        if n.get("union") is not None:
+            ms = [type_stmt(byname[m]) for m in n["union"] if m in byname]
+            extra = n.get("extra")
+            if extra:
+                ms.insert(min(extra[0], len(ms)), "type %s;" % extra[1])
+            ty = "type union { %s }" % " ".join(ms)
+        else:
+            ty = type_stmt(n)
+        return " %s %s { %s }" % ("leaf" if n["leaf"] else "typedef", n.get("yname", n["name"]), ty)
+
+    out = ['module %s { prefix "t"; namespace "urn:%s";' % (mod["name"], mod["name"])]
+    scopes = mod.get("scopes") or []
+    layout = mod.get("layout") or ([("n", n["name"]) for n in mod["nodes"] if n.get("scope") is None and not n.get("member")]
+                                   + [("s", i) for i in range(len(scopes))])
+    done_rpc = set()
+
+    def scope_body(i):
+        return "\n".join(" " + stmt(n) for n in mod["nodes"] if n.get("scope") == i and not n.get("member"))
+
+    for what, x in layout:
+        if what == "n":
+            if x in byname and not byname[x].get("member") and byname[x].get("scope") is None:
+                out.append(stmt(byname[x]))
+            continue
+        sc = scopes[x]
+        if sc["kind"] == "container":
+            out.append(" container %s {\n%s\n }" % (sc["name"], scope_body(x)))
+        elif sc["kind"] == "list":
+            out.append(' list %s { key "k_%s"; leaf k_%s { type string; }\n%s\n }' % (sc["name"], sc["name"], sc["name"], scope_body(x)))
+        elif sc["kind"] == "grouping":
+            out.append(" grouping %s {\n%s\n }\n %s" % (sc["name"], scope_body(x),
+                                                       "uses %s;" % sc["name"] if not sc.get("wrap") else "container w_%s { uses %s; }" % (sc["name"], sc["name"])))
+        elif sc["kind"] in ("input", "output"):
+            if sc["rpc"] in done_rpc:
+                continue
+            done_rpc.add(sc["rpc"])
+            parts = ["  %s {\n%s\n  }" % (scopes[j]["kind"], scope_body(j)) for j in range(len(scopes)) if scopes[j].get("rpc") == sc["rpc"]]
+            out.append(" rpc %s {\n%s\n }" % (sc["rpc"], "\n".join(parts)))
     out.append("}")
     return "\n".join(out)
 
@@ -251,6 +297,14 @@ def prune(mods, rnd):
         want = True if nm.startswith("f") else int(nm[1:]) % 2 == 1 if nm.startswith("s") else rnd.random() < 0.5
         keep = rnd.choice(bad)["name"] if bad and want else None
         mod["nodes"] = [n for n in mod["nodes"] if n["m"][0] == "ok" or n["name"] == keep]
+        names = {n["name"] for n in mod["nodes"]}
+        for n in mod["nodes"]:
+            if n.get("union") is not None:
+                n["union"] = [m for m in n["union"] if m in names]
+        gone = {n["name"] for n in mod["nodes"] if n.get("union") is not None and not n["union"]}
+        while gone:     # unions without a member left, and what refers to them
+            mod["nodes"] = [n for n in mod["nodes"] if n["name"] not in gone]
+            gone = {n["name"] for n in mod["nodes"] if n["parent"] in gone}
         mod["reject"] = keep
 
 
@@ -287,6 +341,23 @@ def go_line(mod, ops="L0,P,P"):
     return "process - %s 1 %s %s" % (ops, hexs(mod["name"] + ".yang"), hexs(render_mod(mod)))
 
 
+def go_leaves(r):
+    out = {}
+
+    def walk(c):
+        if c is None:
+            return
+        if c.get("kind") in ("Leaf", "leaf") or c.get("type"):
+            out[c["name"]] = c
+        for k in c.get("children") or []:
+            walk(k)
+        walk(c.get("input"))
+        walk(c.get("output"))
+    for m in r["modules"]:
+        walk(m["tree"])
+    return out
+
+
 def compare_mod(mod, goline):
     """returns None or a description of the disagreement"""
     import json
@@ -296,6 +367,9 @@ def compare_mod(mod, goline):
         return "implementation output unreadable: %s" % goline[:200]
     if j["loads"] != ["ok"]:
         return "module not loaded: %s" % j["loads"]
+    byname = {n["name"]: n for n in mod["nodes"]}
+    fd = mod["fd"] if mod["dec"] else 0
+    field = "length" if mod["length"] else "range"
     for ri, r in enumerate(j["runs"]):
         if mod["reject"] is not None:
             if not r["errors"]:
@@ -303,14 +377,26 @@ def compare_mod(mod, goline):
             continue
         if r["errors"]:
             return "run %d: model accepts every restriction, Process reported %s" % (ri, r["errors"][:2])
-        leaves = {c["name"]: c for m in r["modules"] for c in (m["tree"].get("children") or [])}
+        leaves = go_leaves(r)
         for n in mod["nodes"]:
             if not n["leaf"]:
                 continue
             c = leaves.get(n["name"])
             if c is None or not c.get("type"):
                 return "run %d: leaf %s missing" % (ri, n["name"])
-            got = text_vals(c["type"].get("length" if mod["length"] else "range", ""), mod["fd"] if mod["dec"] else 0)
+            holder = n if n.get("union") is not None else byname.get(n["parent"]) if byname.get(n["parent"], {}).get("union") is not None else None
+            if holder is not None:
+                # members that are Equal to an earlier one are dropped by the implementation
+                want = []
+                for m in holder["union"]:
+                    v = tok_vals(byname[m]["m"][1])
+                    if v not in want:
+                        want.append(v)
+                got = [text_vals(u.get(field, ""), fd) for u in c["type"].get("union") or [] if u.get("kind") == mod["kind"]]
+                if got != want:
+                    return "run %d: union leaf %s resolved to members %s, model %s" % (ri, n["name"], got[:6], want[:6])
+                continue
+            got = text_vals(c["type"].get(field, ""), fd)
             want = tok_vals(n["m"][1])
             if got != want:
                 return "run %d: leaf %s resolved to %s, model %s" % (ri, n["name"], got[:6], want[:6])
@@ -540,11 +626,194 @@ def fixed_signs():
     return out
 
 
+SCOPE_KINDS = ("container", "list", "grouping", "input", "output")
+
+
+def make_scopes(rnd, k):
+    kinds = [rnd.choice(SCOPE_KINDS) for _ in range(k)]
+    if rnd.random() < 0.3 and k >= 2:
+        kinds[0], kinds[1] = "input", "output"
+    scopes, rpcs = [], 0
+    for i, kd in enumerate(kinds):
+        sc = dict(kind=kd, name="c%d" % i)
+        if kd in ("input", "output"):
+            mate = next((x for x in scopes if x["kind"] in ("input", "output") and x["kind"] != kd
+                         and sum(1 for y in scopes if y.get("rpc") == x["rpc"]) == 1), None)
+            if mate is not None and rnd.random() < 0.7:
+                sc["rpc"] = mate["rpc"]
+            else:
+                sc["rpc"] = "r%d" % rpcs
+                rpcs += 1
+        if kd == "grouping":
+            sc["wrap"] = rnd.random() < 0.5
+        scopes.append(sc)
+    return scopes
+
+
+def gen_scoped(rnd, idx):
+    """typedefs of the SAME name in sibling scopes with disjoint sets; the same restriction texts in every scope, most of
+    them legal under exactly one of the typedefs"""
+    import copy
+    kind = rnd.choice(list(INT_KINDS) + list(LEN_KINDS) + ["decimal64"] * 2)
+    fd = rnd.choice([1, 2, 9, 18]) if kind == "decimal64" else 0
+    isl, dec, fd, KLO, KHI = kind_info(kind, fd)
+    k = rnd.randint(2, 3)
+    scopes = make_scopes(rnd, k)
+    unit = 10 ** max(0, fd - 1) if fd and fd < 18 else 1
+    lo = KLO if rnd.random() < 0.3 else max(KLO, rnd.choice([0, 1, -100 * unit, -5 * unit]))
+    seg = max(4, min((KHI - lo) // (2 * k), rnd.choice([10, 100, 1000]) * unit))
+    nodes, texts = [], []
+    if rnd.random() < 0.5:
+        nodes.append(dict(name="top", parent=kind, text=None, leaf=False))
+    for i in range(k):
+        A = lo + 2 * i * seg
+        B = A + seg if not (i == k - 1 and rnd.random() < 0.3) else KHI
+        pts = pick_points(rnd, A, B, 8)
+        base = "top" if nodes and nodes[0]["name"] == "top" and rnd.random() < 0.5 else kind
+        nodes.append(dict(name="t@%d" % i, yname="t", scope=i, parent=base, leaf=False,
+                          text=parts_text(rnd, pts, A, B, fd, rnd.randint(1, 2), True)))
+        if rnd.random() < 0.5:
+            nodes.append(dict(name="u@%d" % i, yname="u", scope=i, parent="t@%d" % i, leaf=False,
+                              text=parts_text(rnd, pts, A, B, fd, rnd.randint(1, 2), rnd.random() < 0.5)))
+        texts.append(parts_text(rnd, pts, A, B, fd, rnd.randint(1, 2), False))
+        if rnd.random() < 0.6:
+            texts.append("min..%s" % short_lit(rnd.choice(pts), fd, rnd))
+    texts += ["min..max", rnd.choice(["min", "max", "max|min"])]
+    for i in range(k):
+        mine = [n for n in nodes if n.get("scope") == i]
+        for tn in mine:
+            nodes.append(dict(name="see_%s_%d" % (tn["yname"], i), scope=i, parent=tn["name"], text=None, leaf=True))
+        for ti, tx in enumerate(texts):
+            if rnd.random() < 0.7:
+                tn = rnd.choice(mine)
+                nodes.append(dict(name="l%d_%d" % (i, ti), scope=i, parent=tn["name"], text=tx, leaf=True))
+    order = list(range(k))
+    rnd.shuffle(order)
+    layout = [("n", "top")] + [("s", i) for i in order]
+    if rnd.random() < 0.3:
+        layout = layout[1:] + layout[:1]
+    if rnd.random() < 0.5:    # statement order inside the scopes
+        head = [n for n in nodes if n.get("scope") is None]
+        tail = [n for n in nodes if n.get("scope") is not None]
+        rnd.shuffle(tail)
+        nodes = head + tail
+    m0 = dict(name="s%d" % (2 * idx), kind=kind, fd=fd, nodes=nodes, scopes=scopes, layout=layout)
+    m1 = copy.deepcopy(m0)
+    m1["name"] = "s%d" % (2 * idx + 1)
+    return [m0, m1]
+
+
+def gen_union(rnd, idx):
+    """restrictions inside union members (leaf and typedef unions), preceded / followed by an unrestricted member of the
+    same base; some members are in error: not within the parent, bounds out of order, malformed, too much precision"""
+    import copy
+    kind = rnd.choice(list(INT_KINDS) + list(LEN_KINDS) * 2 + ["decimal64"] * 2)
+    fd = rnd.choice([1, 2, 9, 18]) if kind == "decimal64" else 0
+    isl, dec, fd, KLO, KHI = kind_info(kind, fd)
+    unit = 10 ** max(0, fd - 1) if fd and fd < 18 else 1
+    A = max(KLO, rnd.choice([0, 1, -5 * unit, KLO]))
+    B = min(KHI, A + rnd.choice([10, 100, 255]) * unit) if rnd.random() < 0.7 else KHI
+    pts = pick_points(rnd, A, B, 10)
+    nodes = [dict(name="small", parent=kind, leaf=False, text="%s..%s" % (short_lit(A, fd, rnd), short_lit(B, fd, rnd)))]
+    bases = [kind, "small"]
+    if rnd.random() < 0.5:
+        nodes.append(dict(name="holed", parent="small", leaf=False, text=parts_text(rnd, pts, A, B, fd, 2, True)))
+        bases.append("holed")
+
+    def bad_text():
+        c = rnd.random()
+        x, y = sorted(rnd.sample(pts, 2))
+        if c < 0.35 and B < KHI:
+            return "%s..%s" % (short_lit(x, fd, rnd), short_lit(B + rnd.choice([1, 10, 45]) * unit, fd, rnd))
+        if c < 0.45 and kind in INT_KINDS:
+            return "%d..%d" % (KLO, KHI + 45)
+        if c < 0.65:
+            return "%s..%s" % (short_lit(y, fd, rnd), short_lit(x, fd, rnd))
+        if c < 0.8:
+            return rnd.choice(["%s..", "..%s", "%s...7", "-+%s", "%s|"]) % short_lit(x, fd, rnd)
+        if fd and fd < 18:
+            return lit(x, fd) + "5"
+        return "%s..%s" % (short_lit(y, fd, rnd), short_lit(x, fd, rnd))
+
+    for h in range(rnd.randint(2, 4)):
+        holder = "un%d" % h
+        is_leaf = rnd.random() < 0.6
+        base = rnd.choice(bases)
+        members = []
+        for mi in range(rnd.randint(1, 3)):
+            r = rnd.random()
+            tx = None if r < 0.2 else bad_text() if r < 0.55 else parts_text(rnd, pts, A, B, fd, rnd.randint(1, 2), rnd.random() < 0.3)
+            members.append(dict(name="%s.m%d" % (holder, mi), parent=base if rnd.random() < 0.75 else rnd.choice(bases), text=tx, leaf=False, member=True))
+        plain = dict(name="%s.p" % holder, parent=base, text=None, leaf=False, member=True)
+        pos = rnd.random()
+        members = [plain] + members if pos < 0.55 else members + [plain] if pos < 0.8 else members
+        hn = dict(name=holder, parent=None, text=None, leaf=is_leaf, union=[m["name"] for m in members])
+        if rnd.random() < 0.3:
+            hn["extra"] = (rnd.randint(0, len(members)), rnd.choice(["boolean", "empty"] + ([] if isl else ["string"])))
+        nodes += members + [hn]
+        if not is_leaf:
+            nodes.append(dict(name="see_" + holder, parent=holder, text=None, leaf=True))
+    if rnd.random() < 0.4:
+        heads = [n for n in nodes if not n["leaf"] or n.get("member")]
+        ls = [n for n in nodes if n["leaf"] and not n.get("member")]
+        nodes = ls + heads if rnd.random() < 0.5 else heads + ls
+    m0 = dict(name="s%d" % (2 * idx), kind=kind, fd=fd, nodes=nodes)
+    m1 = copy.deepcopy(m0)
+    m1["name"] = "s%d" % (2 * idx + 1)
+    return [m0, m1]
+
+
+def fixed_scoped_union():
+    out = []
+
+    def sib(kind, fd, ta, tb, text, kinds=("container", "container")):
+        for order in (0, 1):
+            scopes = [dict(kind=kinds[0], name="a"), dict(kind=kinds[1], name="b")]
+            for sc in scopes:
+                if sc["kind"] in ("input", "output"):
+                    sc["rpc"] = "r"
+            nodes = [dict(name="t@a", yname="t", scope=0, parent=kind, text=ta, leaf=False), dict(name="x", scope=0, parent="t@a", text=None, leaf=True),
+                     dict(name="t@b", yname="t", scope=1, parent=kind, text=tb, leaf=False), dict(name="y", scope=1, parent="t@b", text=text, leaf=True)]
+            out.append(dict(name="f_sc%d" % len(out), kind=kind, fd=fd, nodes=nodes, scopes=scopes, layout=[("s", 1), ("s", 0)] if order else None))
+    for kinds in (("container", "container"), ("list", "container"), ("grouping", "grouping"), ("input", "output"), ("container", "grouping")):
+        sib("uint8", 0, "1..10", "100..200", "2..9", kinds)
+        sib("uint8", 0, "1..10", "100..200", "min..150", kinds)
+        sib("uint8", 0, "1..10", "100..200", "min..max", kinds)
+        sib("string", 0, "1..10", "100..200", "2..9", kinds)
+        sib("string", 0, "1..10", "100..200", "min..150", kinds)
+        sib("decimal64", 2, "1..10", "100..200", "2.5..9", kinds)
+        sib("int64", 0, "min..-10", "10..max", "min..-20", kinds)
+
+    def un(kind, fd, typedefs, members, as_typedef):
+        nodes = [dict(name=n, parent=p, text=t, leaf=False) for n, p, t in typedefs]
+        ms = [dict(name="u.m%d" % i, parent=p, text=t, leaf=False, member=True) for i, (p, t) in enumerate(members)]
+        nodes += ms + [dict(name="u", parent=None, text=None, leaf=not as_typedef, union=[m["name"] for m in ms])]
+        if as_typedef:
+            nodes.append(dict(name="see_u", parent="u", text=None, leaf=True))
+        out.append(dict(name="f_un%d" % len(out), kind=kind, fd=fd, nodes=nodes))
+    for as_td in (False, True):
+        for flip in (False, True):
+            o = (lambda l: l[::-1]) if flip else (lambda l: l)
+            un("uint8", 0, [], o([("uint8", None), ("uint8", "0..300")]), as_td)
+            un("uint16", 0, [], o([("uint16", None), ("uint16", "70000")]), as_td)
+            un("string", 0, [], o([("string", None), ("string", "10..5")]), as_td)
+            un("binary", 0, [], o([("binary", None), ("binary", "1..")]), as_td)
+            un("int32", 0, [("small", "int32", "1..10")], o([("small", None), ("small", "5..20")]), as_td)
+            un("int32", 0, [("small", "int32", "1..10")], o([("small", None), ("small", "2..5"), ("small", "0")]), as_td)
+            un("decimal64", 2, [("small", "decimal64", "1..10")], o([("small", None), ("small", "1.555")]), as_td)
+            un("decimal64", 1, [("small", "decimal64", "-1.5..1.5")], o([("small", None), ("small", "-2..1")]), as_td)
+            un("string", 0, [("small", "string", "0..64")], o([("small", None), ("small", "4..100")]), as_td)
+    return out
+
+
 def run_modules(res, tier, seed):
     rnd = random.Random(seed * 7919 + 10)
-    mods = fixed_families() + fixed_symmetric() + fixed_signs() + [gen_family(rnd, i) for i in range(700 if tier == "quick" else 12000)]
+    mods = fixed_families() + fixed_symmetric() + fixed_signs() + fixed_scoped_union() + [gen_family(rnd, i) for i in range(700 if tier == "quick" else 12000)]
     for i in range(250 if tier == "quick" else 4000):
         mods += gen_symmetric(rnd, i)
+    for i in range(200 if tier == "quick" else 3000):
+        mods += gen_scoped(rnd, 100000 + i)
+        mods += gen_union(rnd, 200000 + i)
     evals = model_fold(mods)
     prune(mods, rnd)
     golines = lib.run_go([go_line(m) for m in mods])
@@ -561,14 +830,16 @@ def run_modules(res, tier, seed):
             if mism <= 3:
                 res.violation("resolved range/length of a module differs from the proved model folded along the derivation chain: %s\n%s"
                               % (d, render_mod(mod)[:1500]),
-                              dict(kind="module", module=dict(name=mod["name"], kind=mod["kind"], fd=mod["fd"],
-                                                               nodes=[dict(name=n["name"], parent=n["parent"], text=n["text"], leaf=n["leaf"])
-                                                                      for n in mod["nodes"]])))
+                              dict(kind="module", module=dict(name=mod["name"], kind=mod["kind"], fd=mod["fd"], scopes=mod.get("scopes"),
+                                                               layout=mod.get("layout"),
+                                                               nodes=[{k: v for k, v in n.items() if k != "m"} for n in mod["nodes"]])))
     return dict(modules=len(mods), model_links=evals, restrictions_checked=restr, leaves_compared=leaves, modules_with_one_rejected=rejected,
                 mismatches=mism, by_kind=kinds, sample_module=render_mod(mods[len(mods) // 2]),
                 rule="modules with typedef derivation chains (8 integer kinds, string/binary lengths, decimal64 at fd {1,2,3,9,17,18}) whose sets have "
                      "interior gaps, and sets symmetric around zero restricted to one end / a sign-flipped part with grandchildren legal only "
-                     "in the wider set; several leaves/typedefs restrict DIFFERENT parents with byte-identical texts (numerals and min/max), statement "
+                     "in the wider set; typedefs of the same name in sibling scopes (container, list, grouping, rpc input/output) with disjoint sets "
+                     "and the same restriction texts in every scope; restrictions inside union members (leaf and typedef unions) before/after an "
+                     "unrestricted member of the same base, some of them in error; several leaves/typedefs restrict DIFFERENT parents with byte-identical texts (numerals and min/max), statement "
                      "order varied; each module is parsed once and Process is run twice in one Modules value; model = Range.parseChildRanges folded "
                      "along each chain from the builtin base; Process error <=> the model rejects the (single) offending restriction; otherwise every "
                      "leaf's resolved part list equals the model's by value; bounds with malformed sign combinations (every string over +,- of length 0..3, "
